@@ -48,7 +48,9 @@ func main() {
 			"on up to 12 goroutines next to 3 busy ones; evaluation = one call judged (nil => elapsed >= d; ctx.Err() demanded when cancel returned before start + d; the plain sleeps must return nil). " +
 			"Group ended-first: already-ended contexts x d in {1ns..1ms} called from 64 goroutines at once, and contexts cancelled by a spinning goroutine at a swept fraction of d in {5..80us}; evaluation = one call judged. " +
 			"Group lag: trial = one ticker (d 100-300 us, jitter 0) that nobody reads, stopped at its second firing (aimed by the pause point ticker.fire plus 0-5 us, or by time), channel emptied right after Stop, " +
-			"looked at again >= 20 ms later; evaluation = one such look.")
+			"looked at again >= 20 ms later; evaluation = one such look. " +
+			"Group seq: trial = one ticker (d 20-200 us) and one of ten back-to-back control sequences (Stop/Reset(1h)/Reset(small) combinations) run at a firing, half of them while the callback is held at ticker.fire; " +
+			"evaluation = one tick judged by the regime rule or one later look at a silenced ticker.")
 		r.Assume("elapsed time is judged only as a lower bound (nil from SleepContext => elapsed >= d; tick timestamps >= d - jitter apart); no result is ever judged for arriving late")
 		r.Assume("'DeadlineTooSoonError exactly when the deadline is closer than d': the nine scenario classes stay away from deadline ~ d (deadline <= d/8 must give the error, deadline >= 2000 d must not, the latter judged only if the whole scenario took less than deadline - d); right next to d (group near, deadline = d - 1ms .. d + 5ms) only stamps are compared: the error is refuted if the deadline was still >= d away on a stamp taken after the call returned, its absence is refuted if the deadline was closer than d on a stamp taken before the call; in the band between the two stamps nothing is judged")
 		r.Assume("'returns the context's error if the context ends first' is judged for every d > 0: a stamp t0 is taken before SleepContext is called, the party that ends the context stamps tc after cancel() has returned (tc = 0 for a context that had already ended; for an expiry a watcher stamps after it has seen <-ctx.Done()); if tc - t0 < d the context ended first (the timer is armed after t0 and cannot fire before t0 + d) and the result must be ctx.Err(); otherwise nil (after >= d) and ctx.Err() are both accepted")
@@ -58,13 +60,15 @@ func main() {
 		r.Assume("tick pairs that may straddle a Reset are held to the smaller of the d - jitter bounds of every regime that can have been in force between the two timestamps")
 		r.Assume("'no tick is sent after Stop returns' is refuted only by a tick whose own timestamp (taken inside the callback before the send) is later than a stamp taken after Stop returned; a tick that was already in the 1-slot channel is legitimate")
 		r.Assume("drain-then-silence: when Stop returns the 1-slot channel holds at most one tick; after it has been taken out, any further tick received from that ticker was sent after Stop returned, whatever timestamp it carries (also: two or more ticks received after Stop returned)")
+		r.Assume("regime rule: a tick stamped T is legitimate only if some New/Reset call (begun at b, with d and jitter) has b + (d - jitter) <= T and the call that closed that regime (the next Reset or Stop) had not yet returned at T; this covers ticks after Stop, ticks too early after a Reset (measured from before the Reset call), and Reset after Stop (the ticker runs again with the new period)")
+		r.Assume("{Stop, Stop} is not generated: a second Stop without a Reset in between is outside the statement (on this tree it dereferences a nil timer)")
 		r.Assume("that ticks keep arriving at all (liveness) is not part of the statement: a phase that sees no tick for 5 s is counted, not judged")
 
 		for _, g := range []struct {
 			name string
 			run  func(*vkit.Report)
 		}{{"regress", regress}, {"sleep+extreme", sleepCases}, {"gate", gateCases}, {"stress", stressCases}, {"ticker-extreme", tickerExtremes},
-			{"near", nearCases}, {"pool", poolCases}, {"ended-first", endedFirstCases}, {"lag", lagCases}, {"outside", outside}} {
+			{"near", nearCases}, {"pool", poolCases}, {"ended-first", endedFirstCases}, {"lag", lagCases}, {"seq", seqCases}, {"outside", outside}} {
 			t := time.Now()
 			g.run(r)
 			r.Max("wall ms per group (slowest variant)", g.name, int(time.Since(t)/ms))
@@ -81,6 +85,8 @@ func main() {
 		r.Floor("cancel mid-sleep with d <= 80 us: trials in which cancel() returned before start + d", r.Table("ended-first", "cancel mid-sleep: trials with cancel returned before start+d (judged strictly)"), 2000)
 		r.Floor("near d, rule (ii): calls begun with the deadline closer than d", r.Table("near", "calls begun with the deadline closer than d (DeadlineTooSoonError demanded)"), 1000)
 		r.Floor("near d, rule (i): calls begun with the deadline >= d away", r.Table("near", "calls begun with the deadline >= d away that did not answer DeadlineTooSoonError (a prompt one would have been refuted)"), 1000)
+		r.Floor("control sequences run while the timer callback was held at ticker.fire", r.Table("seq", "sequences run while the callback was held at ticker.fire"), 1000)
+		r.Floor("tickers left stopped / Reset to 1h by a control sequence and looked at again", r.Table("seq", "tickers (stopped / Reset to 1h) looked at again >= 3 ms after the drain"), 1000)
 		r.Floor("pool rounds (SleepContext ended at d+-30us, then plain sleeps)", r.Table("pool", "rounds"), 2000)
 		r.Floor("lagging-receiver tickers stopped at the second firing and looked at again", r.Table("lag", "stopped tickers looked at again >= 20 ms after the drain"), 5000)
 		r.Floor("JitterTicker lives with d >= MaxInt64/4", r.Table("ticker", "lives with d >= MaxInt64/4"), 8)
@@ -321,7 +327,7 @@ func expiredDeadline(kind int) time.Time {
 var expiredDs = []time.Duration{1, 1 * ms, 4 * time.Second, time.Hour, 1 << 62, maxD - 1, maxD}
 
 func sleepCases(r *vkit.Report) {
-	n := r.Scale(700, 6000)
+	n := r.Scale(700, 5000)
 	r.Cases("sleep", n, 1, func(c *vkit.Case) {
 		class := c.Rand.Weighted([]int{5, 3, 3, 5, 3, 3, 2, 4, 3})
 		sleepCase(c, class, nil)
